@@ -51,6 +51,11 @@ cfg('cg-orders', '{#A=[$]=[#X][$],#B=[$]=[#Y]=[$],#C=[>][#Z]=[<]}', {'$1': 1, '$
     masses={'A': 1, 'B': 1, 'C': 1}, targets=(1, 2))
 cfg('cg-labels', '{#A=[>a][#X][<a][>b],#B=[<b][#Y][>a],#C=[<a][#Z]}', {'>a': 1, '<a': 1, '>b': 1, '<b': 1},
     masses={'A': 1, 'B': 1, 'C': 1}, targets=(1, 2, 3))
+cfg('cg-digit-labels', '{#A=[>1][#a][#b][<2],#B=[>2][#c][#d][<1],#C=[<1][#e]}', {'>1': 1, '<1': 1, '>2': 1, '<2': 1},
+    masses={'A': 1, 'B': 1, 'C': 1}, targets=(1, 2, 3))
+cfg('cg-term-cap-only', '{#BB=[>][#B][<][>A],#SC=[<A][#S][>A][$A],#CAP=[$B][#T]}',
+    {'<': 0.2, '>': 0.2, '>A': 0.5, '<A': 0.5, '$A': 0.5, '$B': 0.0}, masses={'BB': 2, 'SC': 1, 'CAP': 1},
+    terminals=['$B'], freact={'$A': {'$A': 0, '$B': 1.0}}, start='BB', targets=(2, 3))
 cfg('cg-four', '{#A=[$][#X][$],#B=[>][#Y][<],#C=[$][#Z][>],#D=[<][#W]}', {'$': 1, '>': 1, '<': 1},
     masses={'A': 1, 'B': 1, 'C': 1, 'D': 1}, targets=(1, 2), quick=False)
 cfg('aa-pe', '{#PE=[$]CC[$],#OH=[$]O}', {'$': 1}, all_atom=True, targets=(1, 30))
@@ -60,6 +65,7 @@ cfg('aa-brush', '{#PMA=[>]CC[<]C(=O)OC[>A],#PEG=[<A]COC[>A][$A],#OH=[$B]O}',
     freact={'$A': {'$A': 0, '$B': 1.0}}, start='PMA', targets=(1, 50))
 cfg('aa-masses', '{#PE=[$]CC[$],#VC=[$]C(Cl)C[$]}', {'$': 1}, all_atom=True, masses={'PE': 28.0, 'VC': 62.5}, targets=(1, 60))
 cfg('aa-double', '{#A=[$]=CC=[$],#B=[$]CC[$],#N=[$]=N[$]}', {'$1': 1, '$2': 1}, all_atom=True, targets=(1, 30))
+cfg('aa-bracketH', '{#PP=[>]C[CH](C)[<],#PE=[>][CH2]C[<]}', {'>': 1, '<': 1}, all_atom=True, targets=(1, 40))
 cfg('aa-charged', '{#A=[>]C[NH2+]C[<],#B=[>]CC([O-])[<]}', {'>': 1, '<': 1}, all_atom=True, targets=(1, 40), quick=False)
 
 
